@@ -1,5 +1,5 @@
 SPECIFICATION MCSpec
-CONSTANT L = 5
+CONSTANT L = 4
 CONSTANT Kind = "IN"
 CONSTANT LOBound = "asis"
 VIEW View
